@@ -4,6 +4,7 @@ import (
 	"encoding/json"
 	"flag"
 	"fmt"
+	"go/types"
 	"os"
 	"path/filepath"
 	"sort"
@@ -168,6 +169,40 @@ func run(o *options) int {
 			}
 		}
 	}
+	// C01: repository functions called without a contract are checked frame-only too (transitively),
+	// so that a helper which writes through its arguments is not silently trusted
+	if o.unit == "" && o.prop == "C01" {
+		done := map[*ssa.Function]bool{}
+		for _, u := range units {
+			if u.fn != nil {
+				done[u.fn] = true
+			}
+		}
+		for i := 0; i < len(units); i++ {
+			u := units[i]
+			if u.VC == nil {
+				continue
+			}
+			var fns []*ssa.Function
+			for fn := range u.VC.uncontracted {
+				fns = append(fns, fn)
+			}
+			sort.Slice(fns, func(a, b int) bool { return fns[a].String() < fns[b].String() })
+			for _, fn := range fns {
+				if done[fn] || fn.Pkg == nil || !strings.HasPrefix(fn.Pkg.Pkg.Path(), p.Module) || len(fn.Blocks) == 0 {
+					continue
+				}
+				if !implicitFrameCandidate(p, fn) {
+					continue
+				}
+				done[fn] = true
+				fc := &FuncContract{Pkg: fn.Pkg.Pkg.Path(), Key: fn.Name(), Props: []string{"C01"}, FrameOnly: true, Loops: map[int]*LoopContract{}}
+				nu := verifyFunc(p, fn, fc)
+				nu.Name += " (implicit frame-only)"
+				units = append(units, nu)
+			}
+		}
+	}
 	if len(missing) > 0 {
 		return undecided("contracts for functions that no longer exist: %s", strings.Join(missing, ", "))
 	}
@@ -212,4 +247,21 @@ func run(o *options) int {
 func isGenericTemplate(fn *ssa.Function) bool {
 	r := rootOf(fn)
 	return r.TypeParams() != nil && r.TypeParams().Len() > 0 && len(r.TypeArgs()) == 0
+}
+
+// implicitFrameCandidate: helpers of the mesh / format packages that take no pointer- or map-typed
+// parameter (objects they are meant to fill in) — only those are checked frame-only implicitly.
+func implicitFrameCandidate(p *Program, fn *ssa.Function) bool {
+	path := fn.Pkg.Pkg.Path()
+	rel := strings.TrimPrefix(path, p.Module)
+	if !(strings.HasPrefix(rel, "/modeling") || strings.HasPrefix(rel, "/formats")) || strings.HasPrefix(rel, "/formats/txt") {
+		return false
+	}
+	for _, prm := range fn.Params {
+		switch unalias(prm.Type()).Underlying().(type) {
+		case *types.Pointer, *types.Map, *types.Interface, *types.Signature:
+			return false
+		}
+	}
+	return len(fn.FreeVars) == 0
 }
